@@ -891,6 +891,26 @@ class SceneMachine(Machine):
                                                for _ in range(rng.randint(1, 3))]
                             apply_spec(gspec, x)
                             ops.append(x)
+                if m and m["op"] == "b.transform" and gspec["beams"] and rng.random() < 0.4:
+                    # co-moving: the plasma is shifted on its own and observed, then the beam follows by the same shift
+                    # (same relative placement as before, reached in two steps)
+                    bi = m["i"] % len(gspec["beams"])
+                    pi_ = gspec["beams"][bi]["plasma"]
+                    if gspec["beams"][bi]["parent"] == gspec["plasmas"][pi_]["parent"] == "world":
+                        d = [round(rng.uniform(-0.3, 0.3), 3) for _ in range(3)]
+                        ops.append({"op": "observe", "channel": "beam.density", "which": bi, "twice": False})
+                        tp = copy.deepcopy(gspec["plasmas"][pi_]["transform"])
+                        tp["t"] = [a_ + b_ for a_, b_ in zip(tp["t"], d)]
+                        x = {"op": "p.transform", "i": pi_, "keep": False, "t": tp}
+                        apply_spec(gspec, x)
+                        ops.append(x)
+                        ops.append({"op": "observe", "channel": rng.choice(["beam.density", "att.density", "ray"]), "which": bi, "twice": False})
+                        tb = copy.deepcopy(gspec["beams"][bi]["transform"])
+                        tb["t"] = [a_ + b_ for a_, b_ in zip(tb["t"], d)]
+                        x = {"op": "b.transform", "i": bi, "keep": False, "t": tb}
+                        apply_spec(gspec, x)
+                        ops.append(x)
+                        ops.append({"op": "observe", "channel": "beam.density", "which": bi, "twice": False})
                 if m and m["op"].endswith(".recreate") and rng.random() < 0.5:
                     # the successor node is observed at once, then something upstream changes: it must have been subscribed
                     ops.append(self._gen_observe(rng, spec))
